@@ -65,7 +65,173 @@ fn many_rows_cmd(r: &mut Rng, binary_stmt: Option<u32>) -> Cmd {
     }
 }
 
+/// Quantities that are counted rather than sized, taken past the points where a byte- or
+/// word-sized counter would wrap (255/256/257, 65 535/65 536/65 537): commands per connection,
+/// results per response, rows of a zero-column resultset, long-data chunks per parameter,
+/// executions per statement.
+fn gen_counts_plan(r: &mut Rng) -> Plan {
+    let around = |r: &mut Rng| -> usize {
+        let base = if r.chance(1, 4) { 65_536usize } else { 256 };
+        base - 2 + r.usize_below(5)
+    };
+    let ping = || Cmd {
+        seq: 0,
+        kind: CmdKind::Ping,
+        act: Act::None,
+    };
+    let mut cmds = Vec::new();
+    match r.below(5) {
+        0 => {
+            // many commands on one connection
+            let n = around(r);
+            for i in 0..n {
+                if i % 97 == 13 {
+                    cmds.push(Cmd {
+                        seq: 0,
+                        kind: CmdKind::Query(Blob::lit(b"select n")),
+                        act: Act::Program(simple_ok_program()),
+                    });
+                } else {
+                    cmds.push(ping());
+                }
+            }
+        }
+        1 => {
+            // many results in one response
+            let n = 254 + r.usize_below(5);
+            let units: Vec<Unit> = (0..n)
+                .map(|i| Unit::Count {
+                    affected: i as u64,
+                    last_id: (n - i) as u64,
+                })
+                .collect();
+            cmds.push(Cmd {
+                seq: 0,
+                kind: CmdKind::Query(Blob::lit(b"call many_results()")),
+                act: Act::Program(Program {
+                    units,
+                    end: End::Implicit,
+                    ret_err: None,
+                    probe_cells: false,
+                    pull_params: None,
+                }),
+            });
+        }
+        2 => {
+            // a zero-column resultset with many rows: the OK's affected-row count passes the
+            // one-byte and two-byte length-encoded forms
+            let n = match r.below(3) {
+                0 => 249 + r.usize_below(5),
+                1 => around(r),
+                _ => 65_534 + r.usize_below(5),
+            };
+            cmds.push(Cmd {
+                seq: 0,
+                kind: CmdKind::Query(Blob::lit(b"insert many")),
+                act: Act::Program(Program {
+                    units: vec![Unit::Rows(RowsUnit {
+                        cols: vec![],
+                        rows: vec![vec![]; n],
+                        write_row: r.coin(),
+                        last_row_ended: true,
+                        close: Close::Finish,
+                        contra: None,
+                        recover: None,
+                    })],
+                    end: End::Implicit,
+                    ret_err: None,
+                    probe_cells: false,
+                    pull_params: None,
+                }),
+            });
+        }
+        3 => {
+            // many long-data chunks for one parameter
+            let n = around(r).min(70_000);
+            cmds.push(Cmd {
+                seq: 0,
+                kind: CmdKind::Prepare(Blob::lit(b"p")),
+                act: Act::Prepare(PrepAct::Reply {
+                    id: 4,
+                    params: vec![gen_col_text(r)],
+                    cols: vec![],
+                }),
+            });
+            for i in 0..n {
+                cmds.push(Cmd {
+                    seq: 0,
+                    kind: CmdKind::LongData {
+                        stmt: 4,
+                        param: 0,
+                        data: Blob::Lit(vec![b'a' + (i % 26) as u8; 1 + i % 3]),
+                    },
+                    act: Act::None,
+                });
+            }
+            cmds.push(Cmd {
+                seq: 0,
+                kind: CmdKind::Execute {
+                    stmt: 4,
+                    flags: 0,
+                    iters: 1,
+                    block: ParamBlock {
+                        bind: Some(vec![(0xfc, 0)]),
+                        values: vec![PVal::Skip],
+                        raw: None,
+                        stale_types: None,
+                    },
+                },
+                act: Act::Program(simple_ok_program()),
+            });
+        }
+        _ => {
+            // many executions of one statement, types bound once
+            let n = around(r).min(66_000);
+            cmds.push(Cmd {
+                seq: 0,
+                kind: CmdKind::Prepare(Blob::lit(b"p")),
+                act: Act::Prepare(PrepAct::Reply {
+                    id: 5,
+                    params: vec![gen_col_text(r)],
+                    cols: vec![],
+                }),
+            });
+            for i in 0..n {
+                cmds.push(Cmd {
+                    seq: 0,
+                    kind: CmdKind::Execute {
+                        stmt: 5,
+                        flags: 0,
+                        iters: 1,
+                        block: ParamBlock {
+                            bind: if i == 0 { Some(vec![(0x03, 0)]) } else { None },
+                            values: vec![PVal::Int(i as i64 - 7)],
+                            raw: None,
+                            stale_types: None,
+                        },
+                    },
+                    act: Act::Program(simple_ok_program()),
+                });
+            }
+        }
+    }
+    cmds.push(ping());
+    let mut p = Plan::basic(cmds);
+    p.arrival = match r.below(3) {
+        0 => Arrival::lockstep(),
+        1 => Arrival::upfront(),
+        _ => Arrival {
+            batches: vec![7, 1, 300],
+            with_handshake: r.coin(),
+        },
+    };
+    p
+}
+
 pub fn gen_sink(r: &mut Rng, tier: Tier, job: u64) -> Plan {
+    if r.chance(1, 250) {
+        return gen_counts_plan(r);
+    }
     // rare: the giant ends of the size spectrum
     if r.chance(1, 2500) {
         let sq = gen_seq(r, true);
